@@ -49,6 +49,7 @@ func init() {
 		Explain: "Decides C14's structural clauses: Create sets the event/query cut-offs to the matching snapshot clock + 1 and the handlers drop LTime < cut-off (the accepted (op,offset) pairs drop every t <= last); every send of a UserEvent or *Query on the application channel anywhere in the module is in handleUserEvent/handleQuery and edge-dominated by LTime >= cut-off (gossip, state sync and join replay all funnel there); cut-offs are only raised; the snapshotter records the time of every passing user event/query newer than the last recorded one and sits upstream of the application. Not covered: the <=500 ms unflushed tail at a crash.",
 		Run:     runC14,
 		Mutants: []Mutant{
+			{Name: "replay-applies-torn-line", File: "serf/snapshot.go", Func: "func (s *Snapshotter) replay(", Old: "\t\tif err != nil {\n\t\t\tbreak\n\t\t}\n", New: "\t\tif err != nil && line == \"\" {\n\t\t\tbreak\n\t\t}\n\t\tif err != nil {\n\t\t\tline += \"\\n\"\n\t\t}\n", Expect: "R6"},
 			{Name: "clock-field-after-append", File: "serf/snapshot.go", Func: "func (s *Snapshotter) processQuery(", Old: "\ts.lastQueryClock = q.LTime\n", New: "", Old2: "\ts.tryAppend(fmt.Sprintf(\"query-clock: %d\\n\", q.LTime))\n", New2: "\ts.tryAppend(fmt.Sprintf(\"query-clock: %d\\n\", q.LTime))\n\ts.lastQueryClock = q.LTime\n", Expect: "R5"},
 			{Name: "cutoff-no-plus-one", File: "serf/serf.go", Func: "func Create(", Old: "serf.eventMinTime = oldEventClock + 1", New: "serf.eventMinTime = oldEventClock", Expect: "R1"},
 			{Name: "cutoff-swapped-clocks", File: "serf/serf.go", Func: "func Create(", Old: "serf.queryMinTime = oldQueryClock + 1", New: "serf.queryMinTime = oldClock + 1", Expect: "R1"},
@@ -554,6 +555,21 @@ func runC14(c *an.Ctx) {
 		}
 	}
 	c.Floor("R5", "clock state-before-append and compaction-coverage obligations", n5, 4)
+	// R6: the clock restored at start is one the snapshot really recorded: a record torn by a crash is not
+	// applied (shared with C11.R3) — a shorter prefix of a clock line parses as a much older clock
+	c.Rule("R6 (shared with C11) replay changes state only for lines that were read completely")
+	sub11 := an.NewCtx(c.P, "C11", c.Tier)
+	runC11(sub11)
+	n6 := 0
+	for _, o := range sub11.Obs {
+		if o.Rule == "R3" {
+			o.Key = "R6|C11:" + o.Key
+			o.Rule = "R6"
+			c.Obs = append(c.Obs, o)
+			n6++
+		}
+	}
+	c.Floor("R6", "replay complete-lines obligations", n6, 5)
 	c.Rule("R1 Create: eventMinTime = snap.LastEventClock()+c, queryMinTime = snap.LastQueryClock()+c with (drop operator, c) ∈ {(<,1), (<=,0)}")
 	c.Rule("R2 every send of a UserEvent/*Query on config.EventCh module-wide is in handleUserEvent/handleQuery and dominated by LTime >= min-time")
 	c.Rule("R3 min-times are only raised (eventMinTime: guarded new > old; queryMinTime: single writer Create)")
